@@ -96,6 +96,7 @@ package witness
 //@   invariant "for range cutW" [C15] cut-is-a-prefix-of-the-wider-tile: 0 <= rangeindex && rangeindex < cutW && data == restN(wide0, rangeindex) && cutData == cutTile(wide0, rangeindex) && cutHashes == cutHashes(wide0, rangeindex)
 //@   call ctlog.Backend.Upload requires [C15] entry-bundle-is-written-first: gUpTried == emptyset("set[string]") ==> (c_key == dataKey && c_data == gzipOf(cutTile(wide0, cutW)))
 //@   call ctlog.Backend.Upload requires [C15] hash-tile-is-written-last: gUpTried != emptyset("set[string]") ==> (gUp[dataKey] && c_key == hashKey && c_data == cutHashes(wide0, cutW))
+//@   ensures [C15] never-touches-the-checkpoint-object: gUpTried["mirror/" + originHashOf(pending.Origin) + "/checkpoint"] == old(gUpTried)["mirror/" + originHashOf(pending.Origin) + "/checkpoint"]
 //@   returns [C15] success-means-the-cut-tiles-are-there: ret == nil ==> (pending.N % 256 == 0 || (gFetchTried[hashKey] && !gFetchFailed[hashKey]) || (gUp[dataKey] && gUp[hashKey]))
 
 //@ func witness.(*Witness).processAddEntriesCommit props C15
@@ -108,7 +109,7 @@ package witness
 //@   call ctlog.LockBackend.Replace requires [C15] size-never-decreases: pending.N >= mirrorCheckpoint.N && c_old == l.mirrorCheckpoint && held(&l.mu)
 //@   call ctlog.LockBackend.Replace requires [C15] same-origin: pending.Origin == mirrorCheckpoint.Origin && pending.Origin == l.origin
 //@   call ctlog.LockBackend.Replace requires [C15] cut-tiles-ensured-before-the-checkpoint-is-recorded: cutErr == nil
-//@   call ctlog.LockBackend.Replace requires [C15] records-the-signed-note: c_new == signed && gReplaceTried == 0 && gUpTried == emptyset("set[string]")
+//@   call ctlog.LockBackend.Replace requires [C15] records-the-signed-note: c_new == signed && gReplaceTried == 0 && !gUpTried["mirror/" + originHashOf(pending.Origin) + "/checkpoint"]
 //@   call ctlog.Backend.Upload requires [C15] published-only-after-recorded: gReplaceOK == 1 && gLastNew == c_data && c_data == signed && c_key == "mirror/" + originHashOf(pending.Origin) + "/checkpoint"
 //@   returns [C15] cosignature-released-only-after-record-and-publish: ret1 == nil ==> (gReplaceOK == 1 && gLastNew == signed && gUp[backendKey])
 //@   returns [C15] no-signature-bytes-with-an-error: ret1 != nil ==> isnilb(ret0)
@@ -116,6 +117,8 @@ package witness
 //@   ensures [C15] at-most-one-cas: gReplaceTried <= 1
 
 //@ pure func twTilePath(t tlog.Tile) string
+// torchwood.TilePath returns "tile/...": a tile object never has the key of the mirror checkpoint object
+//@ axiom tile-key-is-not-the-checkpoint-key: forall h string, t tlog.Tile :: "mirror/" + h + "/" + twTilePath(t) != "mirror/" + h + "/checkpoint"
 //@ assume func torchwood.TilePath params t
 //@   ensures ret == twTilePath(t)
 //@ pure func subtreeHashOf(start int, end int, s LeafSeq) bytes
